@@ -360,6 +360,17 @@ func c09CheckFormat(c *Ctx, src []byte, path, origin string, strictComments bool
 
 // c09Class names the known special class a program falls in (used in violation keys)
 func c09Class(a *syntax.Ast) string {
+	// first: the only known class whose output does not re-parse (a program can hold a huge
+	// resource value AND e.g. an invalid-UTF-8 string)
+	for _, st := range a.Stages {
+		if r := st.Resources; r != nil {
+			for _, v := range []float32{r.Threads, r.MemGB, r.VMemGB} {
+				if v > 1e12 || v < -1e12 || v != v {
+					return "huge-resource"
+				}
+			}
+		}
+	}
 	if c09HasInvalidString(a) {
 		return "invalid-utf8-string"
 	}
@@ -407,15 +418,6 @@ func c09Class(a *syntax.Ast) string {
 	}
 	if negZero {
 		return "negative-zero"
-	}
-	for _, st := range a.Stages {
-		if r := st.Resources; r != nil {
-			for _, v := range []float32{r.Threads, r.MemGB, r.VMemGB} {
-				if v > 1e12 || v < -1e12 || v != v {
-					return "huge-resource"
-				}
-			}
-		}
 	}
 	return "other"
 }
@@ -647,7 +649,7 @@ func (g *c09Gen) program() string {
 
 func runC09(c *Ctx) {
 	r := c.Res
-	r.Rule = "(1) strings: corpus + every single byte + PRNG mixes of escapes-worthy ASCII, control bytes, multi-byte runes (incl. U+2028/9, surrogate-range and >U+10FFFF encodings) and invalid bytes: Go quoteString vs Lean quoteString (bytes), and unquoteBytes(quoteString s) = s on the real code for valid UTF-8 (non-trivial = has a byte that is escaped or non-ASCII). (2) topoSort: pipelines of 1..9 calls over random dependency graphs (DAGs, forward/backward references, occasional cycles): real (*Pipeline).topoSort order vs Lean topoSort, plus permutation / dependency order / second-run-is-identity monitors (non-trivial = at least one call must move). (3) FormatSrcBytes on the repo's .mro files, generated programs (comments before declarations/params/bindings/calls, every literal form, modifiers, resources, retains, map calls, forward references) and parsable C08-style mutants: re-parse, fixed point, AST dump equal up to call order, comment multiset (non-trivial = formatter changed the text). (4) include graphs: diamond + nested directories, combined source compiles alone to an equivalent AST."
+	r.Rule = "(1) strings: corpus + every single byte + PRNG mixes of escapes-worthy ASCII, control bytes, multi-byte runes (incl. U+2028/9, surrogate-range and >U+10FFFF encodings) and invalid bytes: Go quoteString vs Lean quoteString (bytes), and unquoteBytes(quoteString s) = s on the real code for valid UTF-8 (non-trivial = has a byte that is escaped or non-ASCII). (2) topoSort: pipelines of 1..9 calls over random dependency graphs (DAGs, forward/backward references, occasional cycles): real (*Pipeline).topoSort order vs Lean topoSort, plus permutation / dependency order / second-run-is-identity monitors (non-trivial = at least one call must move). (3) FormatSrcBytes on the repo's .mro files, generated programs (comments before declarations/params/bindings/calls, every literal form, modifiers, resources, retains, map calls, forward references) and parsable C08-style mutants: re-parse, fixed point, AST dump equal up to call order, comment multiset (non-trivial = formatter changed the text). (4) include graphs: diamond + nested directories, combined source compiles alone to an equivalent AST. (5) value expressions: generated expression ASTs (depth <= 4, about 80% well-formed, the rest with NaN/Inf/-0, invalid UTF-8, reserved or non-identifier keys and references, nil arrays; prefix \"\", four spaces or blanks+tab): syntax.FormatExp vs the Lean printer for all of them, Parser.ParseValExp on the printed text vs the Lean reader for all of them, and for those the model calls well-formed the real text re-parses to the normalised AST (nil array -> null, integral float -> int) and prints to the same text again (non-trivial = the text has a line break, an escape or a reference); then near-miss texts (printed texts and hand-written seeds mutated by 1-3 byte/line/comma/comment edits, ASCII outside string literals): ParseValExp vs the Lean reader (both reject or same AST), the parser never panics, every accepted well-formed value survives print + read."
 	if c.Drv == nil {
 		fatal("C09 needs the Lean driver")
 	}
@@ -666,6 +668,9 @@ func runC09(c *Ctx) {
 
 	// ---- 0. corpus ----
 	for _, s := range readCorpusLines(c.Corpus) {
+		if strings.HasPrefix(s, "exp:") {
+			continue // value-expression texts: c09Exprs
+		}
 		r.hist("corpus")
 		r.count("corpus:"+s, true)
 		check([]byte(s), filepath.Join(c.Scratch, "corpus.mro"), "corpus", false)
@@ -676,6 +681,8 @@ func runC09(c *Ctx) {
 
 	// ---- 2. topoSort ----
 	c09Topo(c)
+	c09Exprs(c) // ---- 2b. value expressions: FormatExp / ParseValExp (c09exp.go)
+	c09Calls(c) // ---- 2c. call statements: CallStm.format / call_stm (c09call.go)
 
 	// ---- 3. formatter monitors ----
 	progSeeds, _ := c08LoadSeeds(c)
